@@ -482,6 +482,7 @@ def correspondence(ctx):
         ctx.brk('correspondence', name, f'driver error: {e}')
         return
     bad = 0
+    first = None
     for it, mo in zip(sr, outs):
         m = mo.get('out', mo)
         ctx.corr_cases += 1
@@ -490,14 +491,16 @@ def correspondence(ctx):
               and sorted(m.get('walk', ['x'])) == sorted(it['want']) and m.get('leaf', 'x') == it['leaf'])
         if not ok:
             bad += 1
+            dis = {'corr': name, 'pattern': it['name'], 'src': it['src'][:300],
+                   'impl': {'found': it['found'], 'walk': it['want'], 'leaf': it['leaf']},
+                   'model': m if not isinstance(m, dict) else {k: m.get(k) for k in ('found', 'walk', 'leaf')}}
+            first = first or dis
             if len(ctx.corr_disagreements) < 20:
-                ctx.corr_disagreements.append({'corr': name, 'pattern': it['name'], 'src': it['src'][:300],
-                                               'impl': {'found': it['found'], 'walk': it['want'], 'leaf': it['leaf']},
-                                               'model': m if not isinstance(m, dict) else {k: m.get(k) for k in ('found', 'walk', 'leaf')}})
+                ctx.corr_disagreements.append(dis)
             ctx.hints.append((name, it['name']))
     ctx.dist.setdefault('correspondence_cases', {})[name] = len(sr)
     if bad:
-        ctx.brk('correspondence', name, f'{bad}/{len(sr)} cases differ; first: ' + str(ctx.corr_disagreements[-1])[:1500])
+        ctx.brk('correspondence', name, f'{bad}/{len(sr)} cases differ; first: ' + str(first)[:1500])
     ctx._c17_search_model = {id(it): mo.get('out', mo) for it, mo in zip(sr, outs)}
 
 
